@@ -163,9 +163,29 @@ class FenStr:
         return False
 
 
+class CandNotation:
+    """to_notation() of candidate number idx of board b (lists mode)"""
+    def __init__(self, T, b, idx):
+        self.T, self.b, self.idx = T, b, idx
+
+    def eq_model(self, ctx, other):
+        w = as_str(ctx, other)
+        if not isinstance(w, U.TokV):
+            raise Unsupported('candidate notation compared with %r' % (w,))
+        k, n = TermEnv.canon(w)
+        return z3.And(self.T.wkind(self.b, self.idx) == k, self.T.wnum(self.b, self.idx) == n)
+
+
 class TermEnv:
-    """boards and moves as terms of uninterpreted sorts; the board-level callees as uninterpreted functions"""
-    def __init__(self, run):
+    """boards and moves as terms of uninterpreted sorts; the board-level callees as uninterpreted functions.
+    Two granularities: `lists=False` summarises Board::find_move itself (accept? + move found);
+    `lists=True` executes the real find_move and summarises one level lower: get_all_moves / get_legal_moves return K
+    candidate moves of the board (each present or not, legal or not, with an uninterpreted coordinate string), to_notation and
+    make_move act on candidates -- so code that looks a move up in the wrong list is seen."""
+    K = 2
+
+    def __init__(self, run, lists=False):
+        self.lists = lists
         self.BoardS = z3.DeclareSort('BoardS')
         self.MoveS = z3.DeclareSort('MoveS')
         self.start = z3.Const('start_board', self.BoardS)
@@ -194,11 +214,69 @@ class TermEnv:
             k, n = self.canon(w)
             a = self.legal(b.t, k, n)
             return Enum(z3.If(a, z3.BitVecVal(0, 64), z3.BitVecVal(1, 64)), {0: (TermV(self.fm(b.t, k, n)),), 1: (StrV('Move not found'),)})
-        ex.model(r'^board::Board::find_move$', find_move)
-        ex.model(r'^board::<impl at .*>::find_move$', find_move)
+        if not lists:
+            ex.model(r'^board::Board::find_move$', find_move)
+            ex.model(r'^board::<impl at .*>::find_move$', find_move)
+        else:
+            ex.models = [(p, f) for (p, f) in ex.models if 'find_move' not in p.pattern]       # the real find_move is executed
+            I8 = z3.BitVecSort(8)
+            self.present = z3.Function('cand_present', self.BoardS, I8, z3.BoolSort())
+            self.islegal = z3.Function('cand_legal', self.BoardS, I8, z3.BoolSort())
+            self.wkind = z3.Function('cand_word_kind', self.BoardS, I8, z3.BitVecSort(8))
+            self.wnum = z3.Function('cand_word_num', self.BoardS, I8, z3.BitVecSort(U.NUMW))
+            self.cmv = z3.Function('cand_move', self.BoardS, I8, self.MoveS)
+            self.cur = [None]
+
+            def cand_ply(i):
+                return ((CI(0, 8), CI(0, 8)), (CI(i, 8), CI(0, 8)), B.kind_v(B.KNIGHT, 0), B.opt_kind_v(None, 0), B.opt_kind_v(None, 0),
+                        False, False, False, CI(0, 16), tuple(B.status_v(True) for _ in range(4)))
+
+            def moves_of(only_legal):
+                def f(ctx, bp):
+                    b = ctx.deref(bp).t
+                    self.cur[0] = b
+                    ents = []
+                    for i in range(self.K):
+                        g = self.present(b, z3.BitVecVal(i, 8))
+                        if only_legal:
+                            g = z3.And(g, self.islegal(b, z3.BitVecVal(i, 8)))
+                        ents.append((g, cand_ply(i)))
+                    return Seq(tuple(ents))
+                return f
+            for pat in (r'^board::Board::get_all_moves$', r'^board::<impl at .*>::get_all_moves$'):
+                ex.model(pat, moves_of(False))
+            for pat in (r'^board::Board::get_legal_moves$', r'^board::<impl at .*>::get_legal_moves$'):
+                ex.model(pat, moves_of(True))
+
+            def is_legal_move(ctx, bp, mv):
+                b = ctx.deref(bp).t
+                idx = bv(mv[1][0])
+                return Enum(z3.If(self.islegal(b, idx), z3.BitVecVal(0, 64), z3.BitVecVal(1, 64)), {0: (UNIT,), 1: (StrV('illegal'),)})
+            ex.model(r'^board::(Board|<impl at .*>)::is_legal_move$', is_legal_move)
+
+            def to_notation(ctx, ply):
+                if self.cur[0] is None:
+                    raise Unsupported('to_notation before any move list was requested')
+                return CandNotation(self, self.cur[0], bv(ply[1][0]))
+            ex.model(r'^board::ply::(Ply|<impl at .*>)::to_notation$', to_notation)
+            # legal(b, word) and the move found, in terms of the candidates: the first legal candidate with that string
+            def hit(b, i, k, n):
+                i8 = z3.BitVecVal(i, 8)
+                return z3.And(self.present(b, i8), self.islegal(b, i8), self.wkind(b, i8) == k, self.wnum(b, i8) == n)
+            self.legal = lambda b, k, n: z3.Or(*[hit(b, i, k, n) for i in range(self.K)])
+
+            def fm(b, k, n):
+                out = self.cmv(b, z3.BitVecVal(self.K - 1, 8))
+                for i in reversed(range(self.K - 1)):
+                    out = z3.If(hit(b, i, k, n), self.cmv(b, z3.BitVecVal(i, 8)), out)
+                return out
+            self.fm = fm
 
         def make_move(ctx, bp, mv):
             b = ctx.deref(bp)
+            if self.lists:
+                ctx.write(bp, TermV(self.mk(b.t, self.cmv(b.t, bv(mv[1][0])))))
+                return UNIT
             ctx.write(bp, TermV(self.mk(b.t, mv.t)))
             return UNIT
         ex.model(r'^board::Board::make_move$', make_move)
@@ -224,9 +302,10 @@ class TermEnv:
 
 
 def load_case(run, job):
-    kind, k = job
-    name = 'LOAD/%s/%s' % (kind, 'no-moves-clause' if k < 0 else '%d-moves' % k)
-    T = TermEnv(run)
+    kind, k = job[0], job[1]
+    lists = len(job) > 2 and job[2] == 'lists'
+    name = 'LOAD%s/%s/%s' % ('-LISTS' if lists else '', kind, 'no-moves-clause' if k < 0 else '%d-moves' % k)
+    T = TermEnv(run, lists)
     ex = T.ex
     session = z3.Const('session_board', T.BoardS)
     fen_id = z3.BitVec('fen_id', 8)
@@ -250,7 +329,7 @@ def load_case(run, job):
     q = run.decide(name, ex.pre + [zb(st2.guard), z3.Or(*bad)], kind='smt',
                    note='all moves accepted => Ok and position == start.m1...mk (independent of the session position); any refusal => Err and position unchanged')
     if q.verdict == 'sat':
-        run.violation('%s: load_position does not implement "all moves or nothing"' % name, {'case': name, 'model': str(q.model)[:800]})
+        abstract_violation(run, name, 'load_position does not implement "all moves or nothing"', {'case': name, 'model': str(q.model)[:800]})
     for ob, qq in run.check_obligations(ex, name):
         run.violation('%s: load_position can panic: %s' % (name, ob), {'case': name})
 
@@ -259,8 +338,11 @@ def session_case(run, seq):
     """a session from Uci::new(): a sequence of position / ucinewgame commands (bounded history); the position in force at
     the end is the one described by the last accepted position command (or the start position after ucinewgame / at the
     beginning), whatever was sent before"""
-    name = 'SESSION/' + '-'.join('N' if c == 'N' else 'P%d' % c for c in seq)
-    T = TermEnv(run)
+    lists = bool(seq) and seq[0] == 'lists'
+    if lists:
+        seq = seq[1:]
+    name = 'SESSION%s/' % ('-LISTS' if lists else '') + '-'.join('N' if c == 'N' else 'P%d' % c for c in seq)
+    T = TermEnv(run, lists)
     ex = T.ex
     st = State()
     uv = ex.call(T.item(run, 'new'), [], [], 'uci::Uci', st, 'harness')[0]
@@ -283,7 +365,7 @@ def session_case(run, seq):
             q = run.decide('%s/path%d' % (name, nq[0]), ex.pre + [zb(st.guard), final.t != exp], kind='smt',
                            note='position in force == the one described by the last accepted position command / ucinewgame, independent of earlier commands')
             if q.verdict == 'sat':
-                run.violation('%s: the session position depends on earlier commands' % name, {'case': name, 'model': str(q.model)[:1200]})
+                abstract_violation(run, name, 'the session position depends on earlier commands', {'case': name, 'model': str(q.model)[:1200]})
             return
         c = seq[j]
         if c == 'N':
@@ -326,7 +408,7 @@ def newgame_case(run):
     okb = isinstance(U_[0], Opaque) and U_[0].data == 'startpos'
     run.decide('NEWGAME/resets-to-start', [z3.BoolVal(not okb)], kind='smt', note='ucinewgame sets the session position to construct_starting_board().build()')
     if not okb:
-        run.violation('ucinewgame does not reset the session position to the start position', {})
+        abstract_violation(run, 'NEWGAME', 'ucinewgame does not reset the session position to the start position', {})
 
 
 # ------------------------------------------------------------------ (c) find_move
@@ -453,6 +535,196 @@ REPLAY_POSITIONS = ['startpos', 'fen 7k/4P3/8/8/8/8/8/4K3 w - - 0 1', 'fen 4k3/8
                     'fen r3k2r/8/8/8/8/8/8/R3K2R w KQkq - 0 1']
 
 
+# ---------------------------------------------------------------- concrete session replay (real engine vs independent rules)
+
+STARTFEN = 'rnbqkbnr/pppppppp/8/8/8/8/PPPPPPPP/RNBQKBNR w KQkq - 0 1'
+SESSION_POSITIONS = ['startpos',
+                     'fen 4k3/8/8/8/8/8/4r3/4KB2 w - - 0 1',                 # bishop pinned?  no: king in check by the rook -- few legal moves
+                     'fen 4k3/4r3/8/8/8/8/4B3/4K3 w - - 0 1',                # bishop pinned on the e-file
+                     'fen r3k2r/8/8/8/8/8/6p1/R3K2R w KQkq - 0 1',           # castling through an attacked square
+                     'fen 7k/4P3/8/8/8/8/8/4K3 w - - 0 1',                   # promotion
+                     'fen 8/8/8/2k5/3Pp3/8/8/4K3 b - d3 0 1']                # en passant
+
+
+def _ref_board(run, fen):
+    rc, out, err = native.run_helper(run.helper, ['board', 'fen'] + fen.split())
+    if not out.startswith('OK'):
+        return None
+    from .boardstep import parse_board_tokens
+    return parse_board_tokens(out[2:].split())
+
+
+def _ref_notation(mv):
+    s_ = 'abcdefgh'[mv[1]] + str(mv[0] + 1) + 'abcdefgh'[mv[3]] + str(mv[2] + 1)
+    if mv[4] is not None and mv[4] >= 0:
+        s_ += {B.QUEEN: 'q', B.ROOK: 'r', B.BISHOP: 'b', B.KNIGHT: 'n'}.get(mv[4], '?')
+    return s_
+
+
+def _ref_play(d, word):
+    """the position after the legal move named by the word (independent rules), None if the word names no legal move"""
+    from . import chessref_concrete as CR
+    for mv in CR.legal_moves(d):
+        if _ref_notation(mv) == word:
+            p = {'sr': mv[0], 'sf': mv[1], 'dr': mv[2], 'df': mv[3], 'promo': mv[4], 'castles': mv[5], 'ep': mv[6], 'double': mv[7]}
+            a = CR.ref_make(d, p)
+            return {'turn': a['turn'], 'fullmove': a['fullmove'], 'ep': a['ep'], 'bb': a['bb'], 'ph': a['ph'], 'zkey': 0,
+                    'history': d['history'] + [{'rights': a['rights'], 'hmc': a['hmc']}]}
+    return None
+
+
+def _ref_words(d, limit=400):
+    """probe words for a position: every legal coordinate string, every pseudo-legal one, and near misses"""
+    from . import chessref_concrete as CR
+    legal = sorted({_ref_notation(mv) for mv in CR.legal_moves(d)})
+    mb = CR.mailbox(d)
+    pseudo = sorted({_ref_notation(mv) for s_, (k, c) in mb.items() if c == d['turn'] for mv in CR.pseudo_moves_from(d, s_)})
+    out = list(legal)
+    out += [w for w in pseudo if w not in legal]
+    for w in legal[:6]:
+        out += [w[:4] if len(w) == 5 else w + 'q', w[2:4] + w[0:2], w.upper(), w[:3]]
+    out += ['a2a5', 'e2e4x', 'zzzz', 'e9e4']
+    seen, res = set(), []
+    for w in out:
+        if w and w not in seen and w.isascii() and w.isprintable() and ' ' not in w:
+            seen.add(w)
+            res.append(w)
+    return res[:limit], set(legal)
+
+
+def _same_position(d_ref, d_nat):
+    return (d_ref['bb'][:12] == d_nat['bb'][:12] and d_ref['turn'] == d_nat['turn'] and d_ref['ep'] == d_nat['ep']
+            and d_ref['history'][-1]['rights'] == d_nat['history'][-1]['rights'])
+
+
+def _run_session(run, lines):
+    args = []
+    for i, ln in enumerate(lines):
+        if i:
+            args.append(';;')
+        args += ln.split()
+    rc, out, err = native.run_helper(run.helper, ['uci', 'session'] + args)
+    from .boardstep import parse_board_tokens
+    res = []
+    for l in out.strip().splitlines():
+        t = l.split()
+        if t[0] == 'PANIC':
+            res.append(('PANIC', None))
+            break
+        res.append((t[1], parse_board_tokens(t[2:])))
+    return res
+
+
+def _ref_session(run, lines, cache):
+    """(expected outcome, expected position in force) after each line, by the independent rules"""
+    def base(tok):
+        key = ' '.join(tok)
+        if key not in cache:
+            cache[key] = _ref_board(run, STARTFEN if tok[0] == 'startpos' else ' '.join(tok[1:7]))
+        return cache[key]
+    cur = base(['startpos'])
+    res = []
+    for ln in lines:
+        t = ln.split()
+        if t[0] == 'ucinewgame':
+            cur = base(['startpos'])
+            res.append(('ok', cur))
+            continue
+        n = 1 if t[1] == 'startpos' else 7
+        b = base(t[1:1 + n])
+        words = t[2 + n:] if len(t) > 1 + n else []
+        for w in words:
+            b = _ref_play(b, w) if b is not None else None
+        if b is None:
+            res.append(('execerr', cur))
+        else:
+            cur = b
+            res.append(('ok', cur))
+    return res
+
+
+def session_battery(run):
+    """concrete sessions exercising every clause of the property: each legal / pseudo-legal / malformed word as a single move and
+    as the last of two moves, a refused command after an accepted one, a second position command after moves, ucinewgame"""
+    cache = {}
+    out = []
+    for pos in SESSION_POSITIONS:
+        d = _ref_board(run, STARTFEN if pos == 'startpos' else pos[4:])
+        if d is None:
+            continue
+        words, legal = _ref_words(d)
+        for w in words:
+            out.append(['position %s moves %s' % (pos, w)])
+        first = sorted(legal)[:3]
+        for m1 in first:
+            d1 = _ref_play(d, m1)
+            w2, legal2 = _ref_words(d1, 60)
+            for w in w2:
+                out.append(['position %s moves %s %s' % (pos, m1, w)])
+            out.append(['position %s moves %s' % (pos, m1), 'position startpos moves e2e5', 'position %s' % pos])
+            out.append(['position %s moves %s' % (pos, m1), 'position %s moves %s zzzz' % (pos, m1), 'position startpos moves e2e4'])
+            out.append(['position %s moves %s' % (pos, m1), 'ucinewgame', 'position %s moves %s' % (pos, m1), 'position startpos'])
+            out.append(['position startpos moves e2e4 e7e5', 'position %s moves %s' % (pos, m1), 'position startpos moves e2e4 e7e5 g1f3'])
+    return out, cache
+
+
+def replay_session(run):
+    """the battery of concrete sessions on the real engine against the independent rules: the first disagreement as
+    (description, replay record), None when the engine agrees everywhere.  Cached per helper binary (i.e. per tree)."""
+    import os
+    memo = run.helper + '.c08-battery.json'
+    with native._Lock('c08-battery-' + os.path.basename(run.helper)):
+        if os.path.exists(memo):
+            return json.load(open(memo))
+        res = _replay_session(run)
+        json.dump(res, open(memo, 'w'))
+        return res
+
+
+def _replay_session(run):
+    battery, cache = session_battery(run)
+    for lines in battery:
+        got = _run_session(run, lines)
+        exp = _ref_session(run, lines, cache)
+        for i, ((go, gb), (eo, eb)) in enumerate(zip(got, exp)):
+            bad = None
+            if go == 'PANIC':
+                bad = 'panics the engine'
+            elif go != eo:
+                bad = 'is %s by the real engine but must be %s' % ('accepted' if go == 'ok' else 'refused', 'accepted' if eo == 'ok' else 'refused')
+            elif eb is not None and not _same_position(eb, gb):
+                bad = 'leaves a position in force that differs from the one the rules of chess give'
+            if bad:
+                return ['in the session `%s`, line %d `%s` %s' % (' ; '.join(lines[:i + 1]), i + 1, lines[i], bad),
+                        {'cmd': 'ucisession', 'lines': lines[:i + 1]}]
+        if len(got) < len(exp):
+            return ['the session `%s` stops answering' % ' ; '.join(lines), {'cmd': 'ucisession', 'lines': lines}]
+    return None
+
+
+def abstract_violation(run, name, what, extra):
+    """a solver counterexample over abstract boards / moves: reported only with a concrete session that fails on the real engine"""
+    res = replay_session(run)
+    if res:
+        rec = dict(res[1])
+        rec.update(extra)
+        run.violation('%s: %s; on the real engine: %s' % (name, what, res[0]), rec)
+    else:
+        run.inconclusive.append('%s: %s (solver counterexample over abstract positions) -- not reproduced by the concrete session battery on the real engine' % (name, what))
+
+
+def replay_session_file(run, c):
+    cache = {}
+    got = _run_session(run, c['lines'])
+    exp = _ref_session(run, c['lines'], cache)
+    for (go, gb), (eo, eb) in zip(got, exp):
+        print('  got %s, expected %s; position %s' % (go, eo, 'as expected' if gb is not None and eb is not None and _same_position(eb, gb) else 'DIFFERS'))
+    last = len(exp) - 1
+    if len(got) <= last or got[last][0] != exp[last][0] or not _same_position(exp[last][1], got[last][1]):
+        return 1
+    return 0
+
+
 def replay_find(run, name, word, cands, accepted):
     """replay on the real code (helper `uci exec`: one position command on a fresh session): a word must be accepted exactly
     when it is the coordinate string of a legal move (independent rules).  The solver's counterexample is transferred to a few
@@ -528,6 +800,8 @@ def check(run, replay=None):
             rc, out, e = native.run_helper(run.helper, ['uci', 'exec'] + c['tokens'])
             print('replay exec %r -> %s (legal moves by the independent rules: %s)' % (' '.join(c['tokens']), out.strip()[:80], ' '.join(c.get('legal', []))))
             return 1
+        if c.get('cmd') == 'ucisession':
+            return replay_session_file(run, c)
         if c.get('cmd') == 'parse':
             rc, out, e = native.run_helper(run.helper, ['uci', 'parse'] + c['tokens'])
             print('replay parse %r -> %s' % (c['tokens'], out.strip()[:300]))
@@ -545,6 +819,9 @@ def check(run, replay=None):
     alphabet = ['N', 0, 1, 2]
     for h in range(1, H + 1):
         jobs += [('SESSION', seq) for seq in itertools.product(alphabet, repeat=h) if seq[-1] != 'N' or h == 1]
+    # the same obligations one level lower (real find_move over abstract move lists): fewer moves / shorter sessions
+    jobs += [('LOAD', kind_, k_, 'lists') for kind_ in ('startpos', 'fen') for k_ in (-1, 0, 1, 2)]
+    jobs += [('SESSION', ('lists',) + seq) for h in (1, 2) for seq in itertools.product(alphabet[:3], repeat=h) if seq[-1] != 'N' or h == 1]
     jobs += [('NEWGAME',), ('FIND',), ('NOTATION',)] + [('FINDB', L) for L in (3, 4, 5, 6)]
     run.bounds.append('sessions of <= %d position/ucinewgame commands from Uci::new(), <= 2 moves each' % H)
     run.bounds.append('position lines of <= %d tokens; <= %d moves in load_position; find_move over 4 candidate legal moves' % (N, K))
